@@ -154,6 +154,13 @@ func (e *Enc) lookupLocal(name string, b *ssa.BasicBlock, st *State) (TV, bool) 
 					s := e.sortOf(p.T)
 					return TV{e.placeLoad(st, p), s, p.T}, true
 				}
+				if _, isConst := x.X.(*ssa.Const); isConst {
+					// go/ssa records the zero value at a short variable declaration; prefer a later reference to the same
+					// object whose value is defined in a block dominating b
+					if alt := e.betterBinding(obj, b); alt != nil {
+						return e.val(alt), true
+					}
+				}
 				return e.val(x.X), true
 			}
 		}
@@ -879,4 +886,47 @@ func (e *Enc) pkgGlobal(env *Env, name string) (TV, bool) {
 		return TV{e.placeLoad(env.st, p), e.sortOf(t), t}, true
 	}
 	return TV{}, false
+}
+
+// betterBinding looks for a non-constant SSA value bound to obj by some DebugRef whose definition dominates b.
+func (e *Enc) betterBinding(obj types.Object, b *ssa.BasicBlock) ssa.Value {
+	var best ssa.Value
+	bestDepth, bestIdx := -1, -1
+	depth := func(x *ssa.BasicBlock) int {
+		n := 0
+		for d := x.Idom(); d != nil; d = d.Idom() {
+			n++
+		}
+		return n
+	}
+	for _, blk := range e.fn.Blocks {
+		for _, in := range blk.Instrs {
+			dr, ok := in.(*ssa.DebugRef)
+			if !ok || dr.IsAddr || dr.Object() != obj {
+				continue
+			}
+			def, ok := dr.X.(ssa.Instruction)
+			if !ok {
+				continue
+			}
+			if _, isPhi := dr.X.(*ssa.Phi); isPhi {
+				continue
+			}
+			db := def.Block()
+			if db == nil || !(db == b.Idom() || db.Dominates(b)) || db == b {
+				continue
+			}
+			idx := 0
+			for i, y := range db.Instrs {
+				if y == def {
+					idx = i
+				}
+			}
+			d := depth(db)
+			if d > bestDepth || (d == bestDepth && idx > bestIdx) {
+				best, bestDepth, bestIdx = dr.X, d, idx
+			}
+		}
+	}
+	return best
 }
